@@ -1,6 +1,6 @@
 """Per-property configuration of ./check (level, generation rule, what the correspondence is)."""
 
-HOOK_COMMITS = ["f5b1d5244facd014c279423c479633cc3b50fced", "3268006", "3526304", "271a215"]
+HOOK_COMMITS = ["f5b1d5244facd014c279423c479633cc3b50fced", "3268006", "35263043bf6b5f4fd4fd4db82c5d5667fb3b1627", "271a2157aed3e04ac2f8ae3450ad240ff780209e"]
 
 PROPS = {
     "C17": {
